@@ -90,6 +90,34 @@ def apply_edits(orig, edits):
 # ------------------------------------------------------------------------------------------------
 # supervisor of the isolated workers
 # ------------------------------------------------------------------------------------------------
+def _alone(binary, proofs_path, task, tag, timeout_s, as_mib):
+    """Runs one task in its own worker; returns its result record, or None if the worker died again."""
+    tpath = os.path.join(wd(), "tasks-%s-alone.ndjson" % tag)
+    opath = os.path.join(wd(), "out-%s-alone.ndjson" % tag)
+    vf.write_ndjson(tpath, [task])
+    if os.path.exists(opath):
+        os.unlink(opath)
+    res = None
+    try:
+        subprocess.run([binary, "worker", proofs_path, tpath, opath, "0", str(timeout_s), str(as_mib)],
+                       stdout=subprocess.PIPE, stderr=subprocess.PIPE, env=dict(os.environ, RUST_BACKTRACE="0"),
+                       timeout=timeout_s * 4 + 60)
+        if os.path.exists(opath):
+            for ln in open(opath):
+                try:
+                    d = json.loads(ln)
+                except ValueError:
+                    continue
+                if d.get("i") == 0:
+                    res = d
+    except subprocess.TimeoutExpired:
+        res = None
+    for p in (tpath, opath):
+        if os.path.exists(p):
+            os.unlink(p)
+    return res
+
+
 def _run_slice(binary, proofs_path, tasks, tag, timeout_s, as_mib, results, max_restarts):
     tpath = os.path.join(wd(), "tasks-%s.ndjson" % tag)
     opath = os.path.join(wd(), "out-%s.ndjson" % tag)
@@ -125,16 +153,25 @@ def _run_slice(binary, proofs_path, tasks, tag, timeout_s, as_mib, results, max_
         # the worker died: attribute the death to the last started, unfinished task
         if last_started < start and not finished:
             raise vf.ToolError("worker died before starting any task (rc=%s): %s" % (rc, err[-1500:]))
-        if last_started not in finished:
-            kind = "abort"
-            m = re.search(r"memory allocation of \d+ bytes failed", err)
-            what = "memory allocation of N bytes failed" if m else (err.strip().splitlines()[0][:200] if err.strip() else "")
-            if rc < 0:
-                what = "signal %d %s" % (-rc, what)
-            elif rc != 0:
-                what = "exit %d %s" % (rc, what)
-            with open(opath, "a") as f:
-                f.write(json.dumps({"i": last_started, "crash": kind, "what": what.strip()}) + "\n")
+        timed_out = any(l.get("timeout") and l.get("i") == last_started for l in lines)
+        if last_started not in finished or timed_out:
+            # confirm in a fresh worker running this input alone: a death or timeout that does not
+            # reproduce (machine overload, an unrelated kill) is not an outcome of the code under test
+            again = _alone(binary, proofs_path, tasks[last_started], tag, timeout_s, as_mib)
+            if again is not None and not again.get("timeout"):
+                again["i"] = last_started
+                again["retried"] = True
+                with open(opath, "a") as f:
+                    f.write(json.dumps(again) + "\n")
+            elif last_started not in finished:
+                m = re.search(r"memory allocation of \d+ bytes failed", err)
+                what = "memory allocation of N bytes failed" if m else (err.strip().splitlines()[0][:200] if err.strip() else "")
+                if rc < 0:
+                    what = "signal %d %s" % (-rc, what)
+                elif rc != 0:
+                    what = "exit %d %s" % (rc, what)
+                with open(opath, "a") as f:
+                    f.write(json.dumps({"i": last_started, "crash": "abort", "what": what.strip()}) + "\n")
         restarts += 1
         if restarts > max_restarts:
             raise vf.ToolError("more than %d worker deaths in one batch; last: rc=%s %s" % (max_restarts, rc, err[-800:]))
@@ -262,3 +299,125 @@ def check_inputs(muts, results, honest_bytes):
         if len(b) != r["len"] or fnv(b) != r["fnv"]:
             raise vf.ToolError("worker and supervisor disagree on the mutated bytes of %s/%s (case %d)"
                                % (m["cls"], m["fld"], m["c"]))
+
+
+# ------------------------------------------------------------------------------------------------
+# component decoder inputs (C05)
+# ------------------------------------------------------------------------------------------------
+def spans_of(proof, case):
+    """Byte spans of the components inside an honest proof, with the decoder that reads each and the
+    arguments / type parameters the verifier would use: name -> (decoder, start, end, ext, args)."""
+    fm = proof["map"]
+    p = proof["params"]
+    x = case["opts"]["ext"]
+    first = {}
+    last_end = {}
+    for f in fm:
+        first.setdefault((f["g"], f["n"]), f["o"])
+        first.setdefault(f["g"], f["o"])
+        last_end[f["g"]] = f["o"] + f["l"]
+    uq = proof["uq"]
+    out = {
+        "context": ("Context", 0, first["uq"], 1, []),
+        "trace_info": ("TraceInfo", 0, first[("ctx", "modlen")], 1, []),
+        "options": ("ProofOptions", first[("ctx", "opt.queries")], first[("ctx", "ncons")], 1, []),
+        "commitments": ("Commitments", first["com"], last_end["com"], 1, [p["segments"], p["fri_layers"]]),
+        "tq0": ("Queries", first["tq0"], last_end["tq0"], 1, [p["lde"], uq, p["main_width"]]),
+        "cq": ("Queries", first["cq"], last_end["cq"], x, [p["lde"], uq, p["comp_cols"]]),
+        "ood": ("OodFrame", first["ood"], last_end["ood"], x, [p["main_width"], p["aux_width"], p["comp_cols"]]),
+        "fri": ("FriProof", first[("fri", "fri.nlayers")], first["nonce"], x, [p["lde"], p["fold"]]),
+        "bmp": ("BatchMerkleProof", first[("tq0", "bmp.depth")], last_end["tq0"], 1, []),
+        "digest": ("Digest", first[("com", "com.d")], first[("com", "com.d")] + p["digest_bytes"], 1, []),
+        "element": ("Element", first[("cq", "q.vals")], first[("cq", "q.vals")] + p["ext_bytes"], x, []),
+        "base_element": ("BaseElement", first[("tq0", "q.vals")], first[("tq0", "q.vals")] + p["base_bytes"], 1, []),
+        "proof": ("Proof", 0, proof["len"], 1, []),
+    }
+    if "tq1" in first:
+        out["tq1"] = ("Queries", first["tq1"], last_end["tq1"], x, [p["lde"], uq, p["aux_width"]])
+    return out
+
+
+def rebase(edits, start, end):
+    """Edits of a whole-proof mutation expressed relative to the span [start, end), or None when a site
+    or a copy source lies outside it."""
+    out = []
+    for e in edits:
+        o, d = e["o"], e.get("d", 0)
+        if e.get("x", 0):
+            d = 1
+        if o < start or o + d > end:
+            return None
+        c = e.get("c") or []
+        r = dict(e, o=o - start)
+        if len(c) == 2:
+            if c[0] < start or c[0] + c[1] > end:
+                return None
+            r["c"] = [c[0] - start, c[1]]
+        out.append(r)
+    return out
+
+
+def decoder_tasks(rows, proofs, muts):
+    """One `dec` task per (mutation, component span containing all of its sites)."""
+    tasks, meta = [], []
+    for ci, (row, pr) in enumerate(zip(rows, proofs)):
+        case = row["case"]
+        honest = bytes.fromhex(pr["hex"])
+        spans = spans_of(pr, case)
+        mine = [m for m in muts if m["c"] == ci]
+        for name, (dec, a, b, x, args) in spans.items():
+            if name == "proof":
+                continue
+            comp = honest[a:b]
+            tasks.append({"k": "dec", "d": dec, "f": case["field"], "h": case["hash"], "x": x, "b": comp.hex(), "a": args})
+            meta.append({"c": ci, "span": name, "dec": dec, "cls": "honest", "fld": "-"})
+            for m in mine:
+                if not m["e"]:
+                    continue
+                r = rebase(m["e"], a, b)
+                if r is None:
+                    continue
+                tasks.append({"k": "dec", "d": dec, "f": case["field"], "h": case["hash"], "x": x,
+                              "b": apply_edits(comp, r).hex(), "a": args})
+                meta.append({"c": ci, "span": name, "dec": dec, "cls": m["cls"], "fld": m["fld"]})
+    return tasks, meta
+
+
+def random_tasks(rng, rows, proofs, n_raw, n_subst, n_dec):
+    """Seeded unstructured inputs: random strings and honest encodings with random byte substitutions."""
+    tasks, meta = [], []
+    acc = ["optset", "conj", "proven"]
+    for ci, (row, pr) in enumerate(zip(rows, proofs)):
+        case = row["case"]
+        honest = bytes.fromhex(pr["hex"])
+        for j in range(n_raw):
+            ln = rng.choice([0, 1, 2, 7, 26, 27, 40, 64, 100, 300, 1000])
+            b = bytes(rng.randrange(256) for _ in range(ln))
+            if j % 2 == 1:          # an honest prefix followed by noise
+                cut = rng.randrange(len(honest))
+                b = honest[:cut] + b
+            tasks.append({"k": "raw", "c": ci, "b": b.hex(), "acc": acc})
+            meta.append({"c": ci, "span": "proof", "dec": "Proof", "cls": "random.string", "fld": "-"})
+        for j in range(n_subst):
+            b = bytearray(honest)
+            for _ in range(rng.choice([1, 1, 2, 3, 4, 8, 16])):
+                b[rng.randrange(len(b))] = rng.choice([0, 1, 2, 63, 64, 127, 128, 254, 255, rng.randrange(256)])
+            tasks.append({"k": "raw", "c": ci, "b": bytes(b).hex(), "acc": acc})
+            meta.append({"c": ci, "span": "proof", "dec": "Proof", "cls": "random.substitution", "fld": "-"})
+        for name, (dec, a, b_, x, args) in spans_of(pr, case).items():
+            if name == "proof":
+                continue
+            comp = honest[a:b_]
+            for j in range(n_dec):
+                if j % 2 == 0:
+                    ln = rng.choice([0, 1, 2, 3, 5, 9, 17, 33, 64, 200])
+                    b = bytes(rng.choice([0, 1, 255, rng.randrange(256)]) for _ in range(ln))
+                else:
+                    bb = bytearray(comp)
+                    for _ in range(rng.choice([1, 2, 4])):
+                        if bb:
+                            bb[rng.randrange(min(len(bb), 64))] = rng.choice([0, 1, 64, 128, 255, rng.randrange(256)])
+                    b = bytes(bb)
+                tasks.append({"k": "dec", "d": dec, "f": case["field"], "h": case["hash"], "x": x, "b": b.hex(), "a": args})
+                meta.append({"c": ci, "span": name, "dec": dec, "cls": "random", "fld": "-"})
+    return tasks, meta
